@@ -189,3 +189,27 @@ def h_gates(ctx, cfg):
         for m in mods:
             if hasattr(m, "sys") and isinstance(getattr(m, "sys"), _t.SimpleNamespace):
                 m.sys.version_info = cfg.vt
+
+
+@harness("config.version_gates_as_written", props=["C01", "C02", "C03", "C10", "C13"], functions=["code_data._blocks._ATLEAST_310", "code_data._line_mapping.USE_LINETABLE", "code_data._code_data (sys.version_info tests)"],
+         configs="all",
+         notes="the engine sets the version gates explicitly, so the gate *definitions* are evaluated here from source with the interpreter's real sys.version_info 5-tuple: "
+               "_ATLEAST_310 and USE_LINETABLE are true exactly from 3.10, and the inline tests in _code_data select the positional-only branch exactly from 3.8")
+def h_gate_definitions(ctx, cfg):
+    import types as _t
+    ver = tuple(cfg.tables["version"][:3]) + ("final", 0)
+    fake_sys = _t.SimpleNamespace(version_info=ver)
+    want310 = ver[:2] >= (3, 10)
+    for f, name in (("_blocks.py", "_ATLEAST_310"), ("_line_mapping.py", "USE_LINETABLE")):
+        tree = ast.parse(open(os.path.join(PKG(), f), encoding="utf-8").read())
+        defs = [n for n in tree.body if isinstance(n, ast.Assign) and len(n.targets) == 1 and isinstance(n.targets[0], ast.Name) and n.targets[0].id == name]
+        if len(defs) != 1:
+            raise rewrite.BindingError("%s: gate %s is no longer a single module-level assignment" % (f, name))
+        val = eval(compile(ast.Expression(defs[0].value), f, "eval"), {"sys": fake_sys})
+        ctx.prove("gate[%s]_true_exactly_from_3.10" % name, z3.BoolVal(bool(val) == want310), detail="%s = %s evaluates to %r under %r" % (name, ast.unparse(defs[0].value), val, ver))
+    tree = ast.parse(open(os.path.join(PKG(), "_code_data.py"), encoding="utf-8").read())
+    tests = [n.test for n in ast.walk(tree) if isinstance(n, ast.If) and "version_info" in ast.unparse(n.test)]
+    ctx.prove("inline_version_tests_found", z3.BoolVal(len(tests) >= 2))
+    for i, t in enumerate(tests):
+        val = eval(compile(ast.Expression(t), "_code_data.py", "eval"), {"sys": fake_sys})
+        ctx.prove("inline_test_selects_the_posonly_branch_exactly_from_3.8#%d" % i, z3.BoolVal(bool(val) == (ver[:2] >= (3, 8))), detail="%s -> %r under %r" % (ast.unparse(t), val, ver))
